@@ -19,6 +19,11 @@ type Explorer struct {
 	Check    func(choices []int, r *Result)
 	MaxExec  int       // 0 = unlimited
 	Deadline time.Time // zero = none
+	// FromMark, if set, restricts deviations to choice points made after the harness called
+	// vs.Mark(FromMark): the part before it (set-up) runs on the default schedule only. The bound
+	// statement of such an exploration is "every schedule with at most Bound deviations, all of
+	// them after the mark".
+	FromMark string
 	// stats
 	Execs       int
 	Steps       int64
@@ -144,7 +149,17 @@ func (e *Explorer) Run() {
 			e.Replayed++
 		}
 		// children, pushed in reverse so that the simplest alternative is explored first
-		for i := len(r.Points) - 1; i >= len(f.prefix); i-- {
+		first := len(f.prefix)
+		if e.FromMark != "" {
+			m, ok := r.Marks[e.FromMark]
+			if !ok {
+				m = len(r.Points) // never reached: nothing to deviate from
+			}
+			if m > first {
+				first = m
+			}
+		}
+		for i := len(r.Points) - 1; i >= first; i-- {
 			p := &r.Points[i]
 			for alt := p.N - 1; alt >= 1; alt-- {
 				c := e.cost(p, alt)
